@@ -9,6 +9,13 @@ package chainntnfs_test
 // and the persisted height hints are compared with the true inclusion height
 // after every step.
 //
+// Several clients share a ConfRequest with different options (IncludeBlock
+// on/off, different confirmation counts) and join at different times (before
+// the confirmation, once the details are cached, while others still wait);
+// oracle conf_block_details checks the block attached to every Confirmed
+// against the model's block (see confBlockDetails). Historical rescans are
+// answered with the block attached, as the real backends do.
+//
 // External test package because channeldb imports chainntnfs.
 
 import (
@@ -61,7 +68,11 @@ type verifC14Block struct {
 	Txs    []*verifC14Tx
 	TxIdx  map[int]uint32 // universe tx id -> index inside the block
 	Blk    *btcutil.Block
-	Seq    int // global connect sequence number
+	// Body is the harness-side record of the block's transaction ids, taken
+	// when the block was built (the notifier is handed Blk itself, so the
+	// oracle must not rely on that object staying untouched).
+	Body []chainhash.Hash
+	Seq  int // global connect sequence number
 }
 
 type verifC14Model struct {
@@ -303,7 +314,10 @@ func (m *verifC14Model) mine(r *verifRng, txs []*verifC14Tx) *verifC14Block {
 	}
 	b.Blk = btcutil.NewBlock(mb)
 	b.Blk.SetHeight(int32(height))
-	b.Hash = *b.Blk.Hash()
+	b.Hash = mb.Header.BlockHash()
+	for _, mtx := range mb.Transactions {
+		b.Body = append(b.Body, mtx.TxHash())
+	}
 	m.seq++
 	b.Seq = m.seq
 	m.blocks = append(m.blocks, b)
@@ -370,6 +384,13 @@ type verifC14Req struct {
 	// appends the fingerprint suffix.
 	orphanBlk   *verifC14Seen
 	orphanStale bool
+
+	// per notifier instance, conf requests only: which IncludeBlock options
+	// have been used by the clients registered so far, and the block whose
+	// details were (by the model) already known to the notifier when a
+	// client WITHOUT IncludeBlock registered (coverage bookkeeping only).
+	optIncl, optNoIncl bool
+	noBlkCacheReg      *verifC14Seen
 }
 
 type verifC14Seen struct {
@@ -413,9 +434,13 @@ type verifC14H struct {
 	reqs    map[string]*verifC14Req
 	reqList []*verifC14Req
 	clients []*verifC14Client
-	log     []string
-	failed  bool
-	stuck   int
+	// regNow is the client whose RegisterConf call is being made / drained;
+	// inRescan is set while a historical conf rescan result is handed over.
+	regNow   *verifC14Client
+	inRescan bool
+	log      []string
+	failed   bool
+	stuck    int
 
 	nReorgBlocks, nConfirmed, nSpent, nNeg, nReorgEv, nHist, nRestart int
 	maxDepth                                                          int
@@ -540,12 +565,7 @@ func (h *verifC14H) onConfirmed(c *verifC14Client, d *chainntnfs.TxConfirmation)
 	if d.Block != nil && b != nil && d.Block.BlockHash() != b.Hash {
 		h.violation(c.Req, "conf_sound", "confirmed-wrong-block-body", desc)
 	}
-	if c.InclBlk && d.Block == nil {
-		h.vc.Diag("include_block_missing", desc)
-	}
-	if !c.InclBlk && d.Block != nil {
-		h.vc.Diag("block_included_unrequested", desc)
-	}
+	h.confBlockDetails(c, d, b, tx, desc)
 	h.vc.Count("oracle_conf_once_evals", 1)
 	if c.seen != nil {
 		h.violation(c.Req, "conf_once", "confirmed-twice-without-reorg",
@@ -560,6 +580,117 @@ func (h *verifC14H) onConfirmed(c *verifC14Client, d *chainntnfs.TxConfirmation)
 		s.Hash = *d.BlockHash
 	}
 	c.seen = s
+}
+
+// verifC14CrossOptSuffix marks conf_block_details violations of one class
+// whose precondition is established harness-side (see confBlockDetails). The
+// unchanged tree produces this class (findings/C14_include_block_cross_client_
+// repro_test.go); it does not end the history, and only the first few
+// occurrences per process are emitted as violations (the rest are counted) so
+// that they cannot crowd out other violations (50 are kept per process).
+const verifC14CrossOptSuffix = "+delivered-inside-registration-of-client-with-other-option"
+
+var verifC14CrossOptEmitted int
+
+func (h *verifC14H) blockViolation(q *verifC14Req, key, suffix, detail string) {
+	if suffix == "" {
+		h.violation(q, "conf_block_details", key, detail)
+		return
+	}
+	h.vc.Count("conf_block_cross_option_class_seen", 1)
+	if verifC14CrossOptEmitted >= 3 {
+		return
+	}
+	verifC14CrossOptEmitted++
+	h.vc.Violation("conf_block_details", key+suffix, detail, h.witness())
+}
+
+// confBlockDetails is the conf_block_details oracle ("with block details from
+// that chain"): a client that registered WithIncludeBlock gets, with every
+// Confirmed, the block itself: non-nil, its header hash equal to the
+// notification's BlockHash, equal to the reference chain's block at
+// BlockHeight on the active branch, carrying the transaction at TxIndex (and
+// the reference block's transaction list); a client that did not ask for the
+// block gets none. b/tx are the model's truth for the request (nil when the
+// transaction is not on the active chain; conf_sound reports that).
+func (h *verifC14H) confBlockDetails(c *verifC14Client, d *chainntnfs.TxConfirmation,
+	b *verifC14Block, tx *verifC14Tx, desc string) {
+
+	h.vc.Count("oracle_conf_block_details_evals", 1)
+	q := c.Req
+	if q.optIncl && q.optNoIncl {
+		h.vc.Count("conf_block_mixed_option_deliveries", 1)
+	}
+	// Fingerprint suffix of one class, established harness-side: this
+	// Confirmed reached the client while ANOTHER client of the same request,
+	// registered with the opposite IncludeBlock option, was inside its
+	// RegisterConf call (RegisterConf's "rescan complete" branch dispatches
+	// the registrant's view of the details to every subscriber of the set).
+	suffix := ""
+	if o := h.regNow; o != nil && o != c && o.Req == q && o.InclBlk != c.InclBlk {
+		suffix = verifC14CrossOptSuffix
+		h.vc.Count("conf_delivered_inside_other_option_registration", 1)
+		desc += fmt.Sprintf(" [delivered inside the RegisterConf call of client %d (includeBlock=%v) of the same request]",
+			o.ID, o.InclBlk)
+	}
+	if !c.InclBlk {
+		h.vc.Count("oracle_conf_block_unrequested_evals", 1)
+		if d.Block != nil {
+			h.blockViolation(q, "block-included-but-not-requested", suffix,
+				desc+": the client registered without IncludeBlock but the notification carries a block")
+		}
+		return
+	}
+	h.vc.Count("oracle_conf_block_requested_evals", 1)
+	if h.inRescan {
+		// dispatched from the details a historical rescan just returned
+		h.vc.Count("conf_block_requested_from_rescan", 1)
+	}
+	if s := q.noBlkCacheReg; s != nil && d.BlockHash != nil && *d.BlockHash == s.Hash {
+		h.vc.Count("conf_block_requested_after_noblock_cached_registration", 1)
+	}
+	if d.Block == nil {
+		h.blockViolation(q, "block-missing-for-include-block-client", suffix,
+			desc+": the client registered WithIncludeBlock but the notification carries no block")
+		return
+	}
+	got := d.Block.Header.BlockHash()
+	ref := h.m.at(d.BlockHeight)
+	var want chainhash.Hash
+	if tx != nil {
+		want = tx.Hash
+	} else if d.Tx != nil {
+		want = d.Tx.TxHash()
+	}
+	switch {
+	case d.BlockHash == nil || got != *d.BlockHash:
+		h.blockViolation(q, "block-hash-differs-from-notified-block-hash", "",
+			fmt.Sprintf("%s: attached block is %v", desc, got))
+	case ref == nil || got != ref.Hash:
+		h.blockViolation(q, "block-not-on-active-chain-at-notified-height", "",
+			fmt.Sprintf("%s: attached block is %v, the active chain has %v at that height", desc, got,
+				func() any {
+					if ref == nil {
+						return "no block"
+					}
+					return ref.Hash
+				}()))
+	case int(d.TxIndex) >= len(d.Block.Transactions) || d.Block.Transactions[d.TxIndex] == nil ||
+		d.Block.Transactions[d.TxIndex].TxHash() != want:
+
+		h.blockViolation(q, "block-lacks-tx-at-tx-index", "",
+			fmt.Sprintf("%s: attached block has %d transactions, expected %v at index %d", desc,
+				len(d.Block.Transactions), want, d.TxIndex))
+	default:
+		same := len(d.Block.Transactions) == len(ref.Body)
+		for k := 0; same && k < len(ref.Body); k++ {
+			same = d.Block.Transactions[k] != nil && d.Block.Transactions[k].TxHash() == ref.Body[k]
+		}
+		if !same {
+			h.blockViolation(q, "block-body-differs-from-chain-block", "",
+				fmt.Sprintf("%s: the transactions of the attached block are not those of block %v", desc, ref.Hash))
+		}
+	}
 }
 
 func (h *verifC14H) onSpend(c *verifC14Client, d *chainntnfs.SpendDetail) {
@@ -1019,6 +1150,16 @@ func (h *verifC14H) getReq(spend bool) *verifC14Req {
 // register adds a client for request q. immediate decides whether a returned
 // historical dispatch is served at once or left pending.
 func (h *verifC14H) register(q *verifC14Req, immediate bool) {
+	h.registerOpt(q, immediate, nil)
+}
+
+// verifC14ConfOpt fixes the options of a conf registration (joinConf).
+type verifC14ConfOpt struct {
+	NumConfs uint32
+	InclBlk  bool
+}
+
+func (h *verifC14H) registerOpt(q *verifC14Req, immediate bool, force *verifC14ConfOpt) {
 	c := &verifC14Client{ID: len(h.clients), Req: q, regSeq: h.m.seq, lastLeft: -1}
 	hint := h.pickHint(q)
 	g := h.u.Groups[q.Group]
@@ -1053,7 +1194,10 @@ func (h *verifC14H) register(q *verifC14Req, immediate bool) {
 		if h.r.Chance(1, 3) {
 			c.NumConfs = 1
 		}
-		c.InclBlk = h.r.Chance(1, 4)
+		c.InclBlk = h.r.Chance(1, 2)
+		if force != nil {
+			c.NumConfs, c.InclBlk = force.NumConfs, force.InclBlk
+		}
 		var txid *chainhash.Hash
 		if q.ByID {
 			hh := h.u.Txs[q.TxID].Hash
@@ -1064,16 +1208,31 @@ func (h *verifC14H) register(q *verifC14Req, immediate bool) {
 			opts = append(opts, chainntnfs.WithIncludeBlock())
 		}
 		var reg *chainntnfs.ConfRegistration
+		h.regNow = c
 		h.call("RegisterConf", func() error {
 			var err error
 			reg, err = h.n.RegisterConf(txid, g.Script, c.NumConfs, hint, opts...)
 			return err
 		})
 		if reg == nil {
+			h.regNow = nil
 			return
 		}
 		c.cev = reg.Event
 		h.vc.Count("conf_registrations", 1)
+		if c.InclBlk {
+			h.vc.Count("conf_registrations_include_block", 1)
+			q.optIncl = true
+		} else {
+			q.optNoIncl = true
+			// coverage bookkeeping: by the model the notifier already
+			// holds the details of this request (rescan complete, tx on
+			// the active chain) while a client that does not want the
+			// block registers.
+			if b, _ := h.confTruth(q); b != nil && q.state == 2 && reg.HistoricalDispatch == nil {
+				q.noBlkCacheReg = &verifC14Seen{Height: b.Height, Hash: b.Hash}
+			}
+		}
 		if reg.HistoricalDispatch != nil {
 			q.state = 1
 			q.pendConf = reg.HistoricalDispatch
@@ -1082,7 +1241,7 @@ func (h *verifC14H) register(q *verifC14Req, immediate bool) {
 		} else if q.state == 0 {
 			q.state = 2
 		}
-		h.logf("regConf c%d %s n=%d hint=%d dispatch=%v tip=%d", c.ID, q.Key, c.NumConfs, hint, reg.HistoricalDispatch != nil, h.m.tip())
+		h.logf("regConf c%d %s n=%d inclBlk=%v hint=%d dispatch=%v tip=%d", c.ID, q.Key, c.NumConfs, c.InclBlk, hint, reg.HistoricalDispatch != nil, h.m.tip())
 	}
 	h.clients = append(h.clients, c)
 	if q.orphanBlk != nil && !q.orphanStale {
@@ -1091,9 +1250,55 @@ func (h *verifC14H) register(q *verifC14Req, immediate bool) {
 		q.orphanBlk = nil
 	}
 	h.drain()
+	h.regNow = nil
 	if immediate && q.state == 1 {
 		h.deliver(q)
 	}
+}
+
+// joinConf registers one more client for a conf request that already has a
+// live client, with the OPPOSITE IncludeBlock option of one of them, and a
+// confirmation count chosen relative to where the transaction stands now:
+// already reached (served from the cached details at once), not yet reached
+// (queued next to clients that are still waiting), or arbitrary.
+func (h *verifC14H) joinConf(immediate bool) bool {
+	var cands []*verifC14Req
+	for _, q := range h.reqList {
+		if !q.IsSpend && h.liveClients(q) > 0 {
+			cands = append(cands, q)
+		}
+	}
+	if len(cands) == 0 {
+		return false
+	}
+	q := cands[h.r.Intn(len(cands))]
+	var live []*verifC14Client
+	for _, c := range h.clients {
+		if c.Req == q && !c.dead {
+			live = append(live, c)
+		}
+	}
+	opt := &verifC14ConfOpt{InclBlk: !live[h.r.Intn(len(live))].InclBlk}
+	lim := h.limitCap()
+	opt.NumConfs = 1 + uint32(h.r.Intn(int(lim)))
+	if b, _ := h.confTruth(q); b != nil {
+		have := h.m.tip() - b.Height + 1
+		switch h.r.Intn(3) {
+		case 0:
+			opt.NumConfs = 1
+			if have > 1 && have <= lim && h.r.Bool() {
+				opt.NumConfs = have
+			}
+		case 1:
+			opt.NumConfs = have + 1 + uint32(h.r.Intn(2))
+		}
+		if opt.NumConfs > lim {
+			opt.NumConfs = lim
+		}
+	}
+	h.vc.Count("conf_join_registrations", 1)
+	h.registerOpt(q, immediate, opt)
+	return true
 }
 
 func (h *verifC14H) limitCap() uint32 {
@@ -1189,12 +1394,14 @@ func (h *verifC14H) deliver(q *verifC14Req) bool {
 		}
 		h.logf("deliverConf %s range=[%d,%d] found=%v tip=%d", q.Key, d.StartHeight, d.EndHeight, det != nil, h.m.tip())
 		h.noteOrphan(q, det != nil, detHeight)
+		h.inRescan = true
 		h.callTol("UpdateConfDetails", true, func() error { return h.n.UpdateConfDetails(d.ConfRequest, det) })
 		q.pendConf = nil
 	}
 	q.state = 2
 	h.vc.Count("historical_delivered", 1)
 	h.drain()
+	h.inRescan = false
 	return true
 }
 
@@ -1289,6 +1496,7 @@ func (h *verifC14H) restart() {
 	}
 	for _, q := range h.reqList {
 		q.state, q.pendConf, q.pendSpend = 0, nil, nil
+		q.optIncl, q.optNoIncl, q.noBlkCacheReg = false, false, nil
 		if !q.orphanStale {
 			q.orphanBlk = nil
 		}
@@ -1317,7 +1525,9 @@ func (h *verifC14H) restart() {
 func (h *verifC14H) midOp() {
 	switch h.r.Intn(4) {
 	case 0:
-		h.register(h.getReq(false), h.r.Bool())
+		if !(h.r.Chance(1, 2) && h.joinConf(h.r.Bool())) {
+			h.register(h.getReq(false), h.r.Bool())
+		}
 	case 1:
 		h.register(h.getReq(true), h.r.Bool())
 	case 2:
@@ -1421,7 +1631,9 @@ func (h *verifC14H) seqOp() {
 				}
 			}
 		case x < 68:
-			h.register(h.getReq(false), r.Bool())
+			if !(r.Chance(1, 2) && h.joinConf(r.Bool())) {
+				h.register(h.getReq(false), r.Bool())
+			}
 			h.quiescent("after RegisterConf")
 		case x < 80:
 			h.register(h.getReq(true), r.Bool())
